@@ -245,7 +245,8 @@ CellmlElementType AnyCellmlElement::type() const
 ComponentPtr AnyCellmlElement::component() const
 {
     if ((mPimpl->mType == CellmlElementType::COMPONENT)
-        || (mPimpl->mType == CellmlElementType::COMPONENT_REF)) {
+        || (mPimpl->mType == CellmlElementType::COMPONENT_REF)
+        || (mPimpl->mType == CellmlElementType::MATH)) {
         try {
             return std::any_cast<ComponentPtr>(mPimpl->mItem);
         } catch (const std::bad_any_cast &) {
